@@ -165,6 +165,7 @@ type Exec struct {
 	// much share-total mismatch assetTol may attribute to rounding.
 	ShareOps      map[string]int
 	MaxShareTotal map[string]*big.Rat
+	MaxTotal      map[string]*big.Rat // largest staked total since the asset's last reset
 	Twin          *Exec
 	TwinRes       *Res
 	ExportA       []byte   // export of the original at the fork
